@@ -308,3 +308,19 @@ LEVEL_TEXT += _ADD17
 _ADD22 = ' Borrowed: R14.1 / R14.3 / R14.4 (lazy stubs recompile the same slot with the same dialects).'
 EXPLANATION += _ADD22
 LEVEL_TEXT += _ADD22
+
+
+_run_before_r5 = run
+
+
+def run(repo, rep, tier):  # noqa: F811 -- round-5 shape rules appended to the rules above
+    _run_before_r5(repo, rep, tier)
+    if getattr(rep, "borrowed", False):
+        return
+    from ..core import round5 as _r5
+    _r5.valuespec_ownership(repo, rep, "R18.8")
+
+
+_ADDR5B = ' Borrowed: R18.8 (nested specs are derived with spec.copy, so dialect options reach nested positions).'
+EXPLANATION += _ADDR5B
+LEVEL_TEXT += _ADDR5B
